@@ -36,7 +36,7 @@ import (
 
 const (
 	vlUnit        = 150 * time.Second // model time unit (2.5 min)
-	vlWait        = 20 * time.Second  // "wait": lets the 200 ms sleeps, 1 s monitor polls and due tickers happen
+	vlWait        = 10 * time.Second  // "wait": to the next multiple of 10 s; lets the 200 ms sleeps, 1 s monitor polls, retry delays and due tickers happen
 	vlStallBudget = 5 * time.Minute   // total time the gates may stall one process
 )
 
@@ -56,9 +56,10 @@ type vlSched struct {
 }
 
 type vlWaiter struct {
-	ch   chan struct{}
-	kind string
-	at   time.Time
+	ch        chan struct{}
+	kind      string
+	at        time.Time
+	exhausted bool
 }
 
 type vlProc struct {
@@ -81,7 +82,8 @@ type vlProc struct {
 	stallUsed    time.Duration
 	fail         map[string]bool
 	robbed       bool
-	faulted      bool // a Save/Remove fault was ever injected for this process
+	newest       int64 // time (ms) of the newest lock file this process saved, -1 if none
+	faulted      bool  // a Save/Remove fault was ever injected for this process
 	logs         []string
 	acqStart     time.Time
 	acqEnd       time.Time
@@ -99,33 +101,34 @@ type vlObs struct {
 	Ev  int       `json:"ev"`  // 0 after a schedule step, 1 after a mutating lock op, 2 at the instant a lock context is cancelled (state just before)
 	Now int64     `json:"now"` // ms of virtual time since the start of the schedule
 	F   [][]int64 `json:"f"`   // lock files: [owner, time(ms), exclusive]
-	P   [][]int64 `json:"p"`   // per process: [believes, ctxAlive, exclusive, robbed, stall(ms), clean-finished, faulted]
+	P   [][]int64 `json:"p"`   // per process: [believes, ctxAlive, exclusive, robbed, stall(ms), clean-finished, faulted, newest own lock time]
 	R   [][]int64 `json:"r"`   // remote (scripted) holders: [time(ms), exclusive]
 }
 
 type vlEnv struct {
-	t      *testing.T
-	mu     sync.Mutex
-	store  *kit.Store
-	master *Repository
-	procs  []*vlProc
-	byName map[string]*vlProc
-	urepo  *Repository
-	t0     time.Time
-	drain  bool
-	curI   int
-	obs    []vlObs
-	owner  map[string]int
-	info   map[string]*vlFileInfo
-	remote [][]int64
-	nextR  int
-	rng    *rand.Rand
-	wg     sync.WaitGroup
-	autos  int
-	noops  int
-	opsN   int
-	gateLd bool
-	trace  []string
+	t        *testing.T
+	mu       sync.Mutex
+	store    *kit.Store
+	master   *Repository
+	procs    []*vlProc
+	byName   map[string]*vlProc
+	urepo    *Repository
+	t0       time.Time
+	drain    bool
+	sleeping bool
+	curI     int
+	obs      []vlObs
+	owner    map[string]int
+	info     map[string]*vlFileInfo
+	remote   [][]int64
+	nextR    int
+	rng      *rand.Rand
+	wg       sync.WaitGroup
+	autos    int
+	noops    int
+	opsN     int
+	gateLd   bool
+	trace    []string
 }
 
 var errVlInjected = fmt.Errorf("verif: injected lock backend fault")
@@ -269,10 +272,29 @@ func (e *vlEnv) gate(proc, kind string, h backend.Handle) {
 		return
 	}
 	rem := vlStallBudget - p.stallUsed
-	if rem < time.Millisecond {
-		rem = time.Millisecond
-	}
 	w := &vlWaiter{ch: make(chan struct{}), kind: kind, at: time.Now()}
+	e.tr(p, kind, "arrive")
+	if rem < time.Millisecond {
+		// the stall budget of this process is used up: the operation may still wait for its turn in the
+		// schedule, but no virtual time may pass while it waits
+		if e.sleeping {
+			e.autos++
+			e.mu.Unlock()
+			time.Sleep(time.Millisecond)
+			e.mu.Lock()
+			p.stallUsed += time.Millisecond
+			e.mu.Unlock()
+			return
+		}
+		w.exhausted = true
+		p.waiters = append(p.waiters, w)
+		e.mu.Unlock()
+		<-w.ch
+		e.mu.Lock()
+		p.stallUsed += time.Since(w.at)
+		e.mu.Unlock()
+		return
+	}
 	p.waiters = append(p.waiters, w)
 	e.mu.Unlock()
 	timer := time.NewTimer(rem)
@@ -292,6 +314,7 @@ func (e *vlEnv) gate(proc, kind string, h backend.Handle) {
 			}
 		}
 		e.autos++
+		e.tr(p, kind, "budget")
 	}
 	p.stallUsed += time.Since(w.at)
 	e.mu.Unlock()
@@ -307,8 +330,16 @@ func (e *vlEnv) release(p *vlProc) bool {
 	}
 	w := p.waiters[0]
 	p.waiters = p.waiters[1:]
+	e.tr(p, w.kind, "step")
 	close(w.ch)
 	return true
+}
+
+// tr appends to the gate trace (caller holds e.mu)
+func (e *vlEnv) tr(p *vlProc, kind, what string) {
+	if len(e.trace) < 300 {
+		e.trace = append(e.trace, fmt.Sprintf("%d@%d:%s:%s:%s", e.curI, e.ms(), p.name, kind, what))
+	}
 }
 
 func vlB(b bool) int64 {
@@ -343,6 +374,9 @@ func (e *vlEnv) observe(ev int, preCancel int) {
 			}
 			fi = &vlFileInfo{owner: e.owner[n], t: int64(l.Time.Sub(e.t0) / time.Millisecond), excl: l.Exclusive}
 			e.info[n] = fi
+			if fi.owner >= 1 && fi.owner <= len(e.procs) && fi.t > e.procs[fi.owner-1].newest {
+				e.procs[fi.owner-1].newest = fi.t
+			}
 		}
 		o.F = append(o.F, []int64{int64(fi.owner), fi.t, vlB(fi.excl)})
 	}
@@ -360,7 +394,7 @@ func (e *vlEnv) observe(ev int, preCancel int) {
 			ctxAlive = true
 		}
 		clean := p.state == "released" && !p.faulted && !p.robbed && !p.cancelled
-		o.P = append(o.P, []int64{vlB(bel), vlB(ctxAlive), vlB(p.excl), vlB(p.robbed), int64(p.stallUsed / time.Millisecond), vlB(clean), vlB(p.faulted)})
+		o.P = append(o.P, []int64{vlB(bel), vlB(ctxAlive), vlB(p.excl), vlB(p.robbed), int64(p.stallUsed / time.Millisecond), vlB(clean), vlB(p.faulted), p.newest})
 	}
 	// keep only the first and the last of a run of observations that differ in nothing but time
 	if n := len(e.obs); n >= 2 && ev == 0 && vlSame(e.obs[n-1], o) && vlSame(e.obs[n-2], o) && e.obs[n-1].Ev == 0 {
@@ -377,7 +411,42 @@ func vlSame(a, b vlObs) bool {
 }
 
 func (e *vlEnv) sleep(d time.Duration) {
+	// operations of processes without stall budget left must not wait while time passes
+	for k := 0; k < 200; k++ {
+		synctest.Wait()
+		var ws []*vlWaiter
+		e.mu.Lock()
+		for _, p := range e.procs {
+			var keep []*vlWaiter
+			for _, w := range p.waiters {
+				if w.exhausted || vlStallBudget-p.stallUsed-time.Since(w.at) < time.Millisecond {
+					ws = append(ws, w)
+					e.autos++
+					e.tr(p, w.kind, "nobudget")
+				} else {
+					keep = append(keep, w)
+				}
+			}
+			p.waiters = keep
+		}
+		if len(ws) == 0 {
+			e.sleeping = true
+		}
+		e.mu.Unlock()
+		if len(ws) == 0 {
+			break
+		}
+		for _, w := range ws {
+			close(w.ch)
+		}
+	}
+	e.mu.Lock()
+	e.sleeping = true
+	e.mu.Unlock()
 	time.Sleep(d)
+	e.mu.Lock()
+	e.sleeping = false
+	e.mu.Unlock()
 	synctest.Wait()
 }
 
@@ -543,6 +612,7 @@ type vlRec struct {
 	Noops  int      `json:"noops"` // schedule steps that had nothing to release / did not apply
 	Ops    int      `json:"ops"`   // gated lock-file operations
 	Logs   []string `json:"logs"`
+	Trace  []string `json:"trace"`
 	Errs   []string `json:"errs"`
 	MaxAge int64    `json:"maxage"`
 }
@@ -582,7 +652,7 @@ func vlSchedString(s vlSched) string {
 
 // vlRun replays one schedule inside a synctest bubble.
 func vlRun(t *testing.T, base map[backend.Handle][]byte, s vlSched, probes bool) (rec vlRec) {
-	rec = vlRec{ID: s.ID, Fam: s.Fam, N: s.N, Sched: vlSchedString(s)}
+	rec = vlRec{ID: s.ID, Fam: s.Fam, N: s.N, Sched: vlSchedString(s), Out: []string{}, Logs: []string{}, Errs: []string{}, Trace: []string{}, Probe: []int64{0, 0}}
 	synctest.Test(t, func(t *testing.T) {
 		e := &vlEnv{t: t, store: kit.NewStoreFrom(base), byName: map[string]*vlProc{}, owner: map[string]int{}, info: map[string]*vlFileInfo{},
 			remote: [][]int64{}, t0: time.Now(), gateLd: true}
@@ -600,7 +670,7 @@ func vlRun(t *testing.T, base map[backend.Handle][]byte, s vlSched, probes bool)
 		}
 		e.master = TestOpenBackend(t, e.store.Raw())
 		mk := func(idx int, name string, free bool) *vlProc {
-			p := &vlProc{idx: idx, name: name, state: "idle", free: free, fail: map[string]bool{}}
+			p := &vlProc{idx: idx, name: name, state: "idle", free: free, fail: map[string]bool{}, newest: -1}
 			p.repo = TestOpenBackend(t, e.store.Wrap(name, &vlBE{Backend: e.store.Raw(), e: e, p: p}))
 			e.byName[name] = p
 			return p
@@ -632,7 +702,8 @@ func vlRun(t *testing.T, base map[backend.Handle][]byte, s vlSched, probes bool)
 					e.release(p)
 				}
 			case "wait":
-				e.sleep(vlWait)
+				el := time.Since(e.t0)
+				e.sleep(vlWait - el%vlWait)
 			case "tick":
 				// to the next multiple of the unit
 				el := time.Since(e.t0)
@@ -755,6 +826,7 @@ func vlRun(t *testing.T, base map[backend.Handle][]byte, s vlSched, probes bool)
 			}
 		}
 		rec.Obs, rec.Autos, rec.Noops, rec.Ops = e.obs, e.autos, e.noops, e.opsN
+		rec.Trace = append([]string{}, e.trace...)
 		e.mu.Unlock()
 		for _, w := range ws {
 			close(w.ch)
